@@ -722,6 +722,9 @@ class TransportLayerLogic:
 
         send_request = self.SendRequest(data=data, target_address_type=target_address_type)
 
+        if send_request.generator.total_length() > 0xFFFFFFFF:
+            raise ValueError('Given data size is too big. The First Frame length field is limited to 32 bits')
+
         if self.tx_queue.full():
             raise RuntimeError('Transmit queue is full')
 
